@@ -9,7 +9,7 @@
    vocabulary, a variable).  Only conversion is used: the result is installed
    with [change], so the kernel re-checks it. *)
 From Ltac2 Require Import Ltac2 Constr Std.
-From Ltac2 Require Array Control Option.
+From Ltac2 Require Array Control Option List Ident.
 
 Ltac2 bi_flags : red_flags := {
   rBeta := true; rMatch := true; rFix := true; rCofix := false;
@@ -27,11 +27,23 @@ Ltac2 try_unfold_const (c : constant) (t : constr) : constr option :=
                if Constr.equal t t' then None else Some t')
     (fun _ => None)).
 
+(* a context variable without a body (a hypothesis / universally quantified value) is
+   stuck for good; unfolding it would raise "x is opaque", which is not a backtrackable
+   failure *)
+Ltac2 var_has_body (x : ident) : bool :=
+  List.exist (fun (id, body, _) =>
+                match body with
+                | Some _ => Ident.equal id x
+                | None => false
+                end) (Control.hyps ()).
+
 Ltac2 try_unfold_var (x : ident) (t : constr) : constr option :=
+  if var_has_body x then
   Control.once (fun () => Control.plus
     (fun () => let t' := eval_unfold [(VarRef x, AllOccurrences)] t in
                if Constr.equal t t' then None else Some t')
-    (fun _ => None)).
+    (fun _ => None))
+  else None.
 
 (* one delta/zeta step at the head-stuck position; None if stuck for good *)
 Ltac2 rec head_step (t : constr) : constr option :=
